@@ -244,7 +244,7 @@ def ulShape (lv : Nat) (s : Str) : Bool :=
    | [] => false)
 
 /-- an underline: the shape, and the facts about the scanners the proof uses (every line of the shape has them, see the
-    example at the end, which checks all 192 underlines of at most 3 + 6 + 3 characters): it is not blank; no `Heading`,
+    example in `Proofs/ComposeCode2.lean`, which checks all 192 underlines of at most 3 + 6 + 3 characters): it is not blank; no `Heading`,
     `Quote`, `CodeFence`, `HtmlBlock` starts on it and `List.check_interrupts_paragraph` does not fire (`-` alone would
     begin an EMPTY item, which does not interrupt a paragraph); `Paragraph.setext_pattern` matches it; its last visible
     character tells the level -/
@@ -471,7 +471,7 @@ def closeShape (d close : Str) : Bool :=
     * every content line is one complete line without a tab that is not a closing line for this fence - by the test
       `CodeFence.read` makes (`closes`: behind fewer than four spaces the opening fence string and nothing behind it but
       non-blank characters and then whitespace; this is MORE than the specification's closing fences: a content line
-      such as "```abc" inside a "```" fence is excluded here, see the counterexample at the end);
+      such as "```abc" inside a "```" fence is excluded here, see the counterexample in `Proofs/ComposeCode2.lean`);
     * the closing line is one complete line without a tab, passes that test and has the specification's shape. -/
 def fenceOkB (ind : Nat) (d info : Str) (body : List Str) (close : Str) : Bool :=
   decide (ind ≤ 3) && decide (3 ≤ d.length) && (d.all (· == '`') || d.all (· == '~'))
@@ -1982,9 +1982,9 @@ theorem renderHtml_writes3 (o : Opts) (ts : List T3) (h : T3.oks ts = true) (hne
   behind a paragraph or directly followed by a block, without a blank line; inside a list item: a fence at indentation
   1 … 3 as the FIRST block of the item (`itemDocOk`), content lines that consist of spaces only, content lines indented
   less than the item; a content line that `CodeFence.read` takes for a closing line although the specification does not:
-  the fence string followed directly by other non-blank characters (see the counterexample at the end); setext headings
+  the fence string followed directly by other non-blank characters (see the counterexample in `Proofs/ComposeCode2.lean`); setext headings
   inside block quotes (`Quote.read` switches `Paragraph.parse_setext` off for the quote's content: recorded finding, the
-  text lines and the underline come out as one paragraph; see the example at the end). -/
+  text lines and the underline come out as one paragraph; see the example in `Proofs/ComposeCode2.lean`). -/
 
 /-- **The block phase parses a written tree back (lists and fenced code blocks included).**  For every well-formed forest
     `ts`, either `tableInterrupt`, every gas ≥ `needs3 ts`: one entry per top-level node - for a fenced block a `CodeFence`
